@@ -3,8 +3,25 @@ over a fake PRUDP client object, inside an anyio task group on asyncio.
 
 A scenario is JSON-able: {"start_id": int, "steps": [step, ...]} with steps
   ["start", noresp(0|1), send_yields]   start a task that calls client.request(...)
+  ["start", noresp, send_yields, opts]  the same with options (a dict): "method" / "protocol" = the method / protocol id handed to
+                                        request() (defaults 1 / 10; a peer that answers the request message echoes them as a
+                                        conforming peer does: method word = method | 0x8000); "gate": 1 = the transport's send()
+                                        of this request stays suspended (back pressure / a socket that does not drain) until
+                                        a "release" / "fail" / "cancel" step names the task; "fail_now": [exc, delivered] = send()
+                                        raises at once, without suspending
+  ["release", task]                     the suspended send() of that task completes normally
+  ["fail", task, exc, delivered]        the suspended send() of that task raises exc ("os" ConnectionResetError | "broken"
+                                        anyio.BrokenResourceError | "closed" anyio.ClosedResourceError | "custom" an application
+                                        exception); delivered = 1: the datagram had reached the peer before the failure (the
+                                        peer answers it if the script says so), 0: it never arrives
+  ["cancel", task, delivered]           the cancel scope around that task's request() is cancelled (a timeout, a task group
+                                        going down), wherever the task is suspended: inside send() (gate, send lock, slow send)
+                                        or waiting for its response
   ["yield", n]                          the director yields n times (asyncio loop iterations)
   ["resp", call_id, "ok"|"err", serial] the peer's next datagram: a response carrying call_id
+  ["resp", call_id, kind, serial, word] the same, the method word of a success response being `word`
+  ["ans", task, kind, serial, how]      `ans` with the method word "std" = method | 0x8000 (conforming) | "same" = the request's
+                                        method as it came | "other" = 0x8001
   ["ans", task, kind, serial]           the peer answers the REQUEST MESSAGE that task `task` sent (one-way requests
                                         included): a response echoing the call id that request carried, whose body /
                                         error code names the task (skipped when that task has not sent anything)
@@ -21,6 +38,10 @@ A scenario is JSON-able: {"start_id": int, "steps": [step, ...]} with steps
   ["eof"]                               the peer closes: recv() raises anyio.EndOfStream
   ["close"] | ["disconnect"] | ["cleanup"]   local closure via RMCClient.close()/disconnect()/__aexit__
 Optional scenario keys:
+  "send_lock": 1           the transport serialises send() with an anyio.Lock (as PRUDPClient.send does per substream): while
+                           one send is suspended inside the lock the later senders are suspended in send() too, queued
+                           for the lock, their calls already registered
+  "final_yields": k        extra loop iterations before the final snapshot
   "servers": [hook, ...]   protocol servers handed to RMCClient.start(); hook = what `logout(client)` does:
                            ["ret"] | ["yret", k] (k loop iterations, then returns) | ["raise"] | ["yraise", k] |
                            ["idle"] (returns once no call is outstanding on the connection) | ["forever"]
@@ -32,11 +53,13 @@ Log lines of the hooks: `hookret` / `hookraise` at the moment a logout hook retu
 `handlerret 1` / `handlerret 0` at the moment a server's handle() returns / raises. `sim.dispatches` = every entry of a
 handle() (op index, server, method, body it was given); `sim.sends_at` = everything the client sent that is not a
 caller's request (op index, datagram): the answers to the peer's requests.
+`abort <t>` = the request() of task t, registered and suspended (inside send() or waiting for its response), ended with an
+exception / a cancellation injected by the scenario instead of resuming from its event.
 Every atomic section that the model has an op for appends one line to the op log *at the moment
 it happens*; asyncio runs the code between two awaits atomically, so the log order is the real
 interleaving. The log is what the Lean model replays.
 """
-import collections, contextvars, logging
+import collections, contextvars, logging, re
 import anyio
 from nintendo.nex import rmc, common, settings as nexsettings
 
@@ -89,6 +112,45 @@ def build_preq(protocol, method, call_id, serial):
 
 
 HANDLER_EXC = {3: TypeError, 4: KeyError, 5: ValueError}
+
+
+def read_request(data):
+    """independent reader of a REQUEST datagram -> (protocol, call id, method, body) or None"""
+    import struct
+    if len(data) < 5 or struct.unpack_from("<I", data)[0] != len(data) - 4 or not data[4] & 0x80: return None
+    proto, q = data[4] & 0x7F, data[5:]
+    if proto == 0x7F:
+        if len(q) < 2: return None
+        proto, q = struct.unpack_from("<H", q)[0], q[2:]
+    if len(q) < 8: return None
+    cid, method = struct.unpack_from("<II", q)
+    return proto, cid, method, q[8:]
+
+
+def raw_response(protocol, call_id, method_word, body):
+    """a success response written field by field (not with the library's encoder): the method word is what the peer puts there"""
+    import struct
+    head = bytes([protocol]) if protocol < 0x7F else bytes([0x7F]) + struct.pack("<H", protocol)
+    payload = head + b"\x01" + struct.pack("<II", call_id & 0xFFFFFFFF, method_word & 0xFFFFFFFF) + body
+    return struct.pack("<I", len(payload)) + payload
+
+
+def raw_error(protocol, call_id, code):
+    import struct
+    head = bytes([protocol]) if protocol < 0x7F else bytes([0x7F]) + struct.pack("<H", protocol)
+    payload = head + b"\x00" + struct.pack("<II", code & 0xFFFFFFFF, call_id & 0xFFFFFFFF)
+    return struct.pack("<I", len(payload)) + payload
+
+
+class InjectedError(Exception):
+    """an application-level exception raised by a transport's send()"""
+
+
+def make_exc(kind):
+    if kind == "os": return ConnectionResetError(104, "Connection reset by peer")
+    if kind == "broken": return anyio.BrokenResourceError()
+    if kind == "closed": return anyio.ClosedResourceError("PRUDP connection is closed")
+    return InjectedError("send failed")
 
 
 def build_ans(call_id, task, kind, serial, protocol=10, method=1):
@@ -176,6 +238,8 @@ class FakePRUDP:
         self.inbox = collections.deque()
         self.closed = False
         self.wakeup = None
+        self.peer = None        # pair runs: the transport object of the other end (what is sent here arrives there)
+        self.lock = anyio.Lock() if sim.sc.get("send_lock") else None
     def minor_version(self): return self.sim.minor
     def pid(self): return 1234
     def local_address(self): return ("127.0.0.1", 1)
@@ -191,13 +255,40 @@ class FakePRUDP:
             caller["sent_id"] = m.call_id
             caller["sent_mode"] = m.mode
             caller["sent_body"] = m.body
-            for _ in range(caller["send_yields"]):
-                await anyio.sleep(0)
+            q = read_request(data)
+            if q is not None:
+                caller["sent_protocol"], caller["sent_method"] = q[0], q[2]
+            if self.peer is not None:
+                self.peer.inbox.append((data, None)); self.peer._kick()
+            rt = sim.rt.get(caller["task"], {})
+            if caller.get("fail_now"):
+                caller["delivered"] = bool(caller["fail_now"][1])
+                raise make_exc(caller["fail_now"][0])
+            if self.lock is not None:
+                # the datagram goes out only once this sender holds the lock
+                caller["delivered"] = False
+                async with self.lock:
+                    await self._caller_send(caller, rt)
+            else:
+                await self._caller_send(caller, rt)
         else:
             sim.other_sends.append(data)
             sim.sends_at.append((len(sim.oplog) - 1, data.hex()))
+            if self.peer is not None:
+                self.peer.inbox.append((data, sim.answering)); self.peer._kick()
             for _ in range(sim.sc.get("reply_yields", 0)):
                 await anyio.sleep(0)
+    async def _caller_send(self, caller, rt):
+        if caller.get("gate"):
+            caller["delivered"] = False
+            await rt["gate"].wait()
+            if rt["fail"] is not None:
+                caller["delivered"] = bool(rt["fail"][1])
+                raise make_exc(rt["fail"][0])
+        else:
+            for _ in range(caller["send_yields"]):
+                await anyio.sleep(0)
+        caller["delivered"] = True
     def _kick(self):
         if self.wakeup is not None:
             self.wakeup.set()
@@ -213,6 +304,10 @@ class FakePRUDP:
                 self.sim.recv_marks.append((len(self.sim.oplog) - 1, self.sim.invalid))
                 if addressee is not None:
                     self.sim.recv_addr[len(self.sim.oplog) - 1] = addressee
+                if self.peer is not None:
+                    q = read_request(item)
+                    mt = re.match(rb"Q(\d+)", q[3]) if q else None
+                    self.sim.answering = int(mt.group(1)) if mt else None
                 return item
             if self.closed:
                 self.sim.eof()
@@ -251,6 +346,8 @@ class Sim:
         self.conn = 0           # number of this connection among the live connections of the process (run_multi)
         self.glog = None        # run_multi: the schedule of the whole process, (connection, index in its op log) in real order
         self.settings = S
+        self.rt = {}            # task -> run-time objects of that caller (gate event, cancel scope, injected failure)
+        self.answering = None   # pair runs: the task (of the other end) whose request this end received last
     def log(self, line):
         if self.glog is not None:
             self.glog.append((self.conn, len(self.oplog)))
@@ -269,23 +366,37 @@ def classify(exc):
     return "exc " + type(exc).__name__
 
 
-async def _caller(sim, client, noresp, send_yields):
+async def _caller(sim, client, noresp, send_yields, opts=None):
+    opts = opts or {}
     c = {"task": len(sim.callers), "noresp": noresp, "send_yields": send_yields, "sent_id": None,
          "outcome": None, "done_at": None, "call_at": len(sim.oplog)}
+    for k in ("method", "protocol", "gate", "fail_now"):
+        if k in opts: c[k] = opts[k]
+    rt = sim.rt[c["task"]] = {"gate": anyio.Event(), "fail": None, "scope": None, "injected": bool(opts.get("fail_now"))}
     sim.callers.append(c)
     sim.log("call %d" % noresp)
     sim.current = c
-    try:
-        r = await client.request(10, 1, b"Q%d" % c["task"], bool(noresp))
-        out = "none" if r is None else "body " + hx(r)
-    except Exception as e:
-        out = classify(e)
-    finally:
-        sim.current = None if sim.current is c else sim.current
+    out = None
+    with anyio.CancelScope() as scope:
+        rt["scope"] = scope
+        try:
+            r = await client.request(opts.get("protocol", 10), opts.get("method", 1), b"Q%d" % c["task"] + sim.sc.get("body_tag", "").encode(), bool(noresp))
+            out = "none" if r is None else "body " + hx(r)
+        except Exception as e:
+            out = classify(e)
+        finally:
+            sim.current = None if sim.current is c else sim.current
+    if out is None:
+        out = "cancelled" if scope.cancelled_caught else "exc BaseException"
     c["outcome"] = out
     if c["sent_id"] is not None and not noresp:
-        # the completion of a suspended request() *is* the model's `wake`
-        sim.log("wake %d" % c["task"])
+        if rt["injected"] and (out == "cancelled" or out.startswith("exc ")):
+            # the suspended request() was ended from outside (its send() raised / it was cancelled)
+            c["aborted"] = 1
+            sim.log("abort %d" % c["task"])
+        else:
+            # the completion of a suspended request() *is* the model's `wake`
+            sim.log("wake %d" % c["task"])
     c["done_at"] = len(sim.oplog) - 1
 
 
@@ -346,16 +457,44 @@ class Conn:
         sim, fake, client = self.sim, self.fake, self.client
         k = st[0]
         if k == "start":
-            tg.start_soon(_caller, sim, client, st[1], st[2])
+            tg.start_soon(_caller, sim, client, st[1], st[2], st[3] if len(st) > 3 else None)
+        elif k == "release":
+            if st[1] in sim.rt: sim.rt[st[1]]["gate"].set()
+        elif k == "fail":
+            rt = sim.rt.get(st[1])
+            if rt is not None and sim.callers[st[1]]["outcome"] is None:
+                rt["fail"] = (st[2], st[3]); rt["injected"] = True; rt["gate"].set()
+        elif k == "cancel":
+            rt = sim.rt.get(st[1])
+            if rt is not None and rt["scope"] is not None and sim.callers[st[1]]["outcome"] is None:
+                c = sim.callers[st[1]]
+                if not c.get("delivered", True): c["delivered"] = bool(st[2])
+                rt["injected"] = True; rt["scope"].cancel()
         elif k == "yield":
             for _ in range(st[1]):
                 await anyio.sleep(0)
         elif k == "resp":
-            fake.inbox.append((build_resp(st[1], st[2], st[3]), None)); fake._kick()
+            if len(st) > 4:     # the method word the peer puts into a success response, written field by field
+                data = (raw_response(10, st[1], st[4], resp_body(st[1], st[3])) if st[2] == "ok" else raw_response(10, st[1], st[4], b"") if st[2] == "ok-empty"
+                        else raw_error(10, st[1], resp_code(st[1], st[3])) if st[2] == "err" else raw_error(10, st[1], 0x00010005 + st[3]))
+            else:
+                data = build_resp(st[1], st[2], st[3])
+            fake.inbox.append((data, None)); fake._kick()
         elif k == "ans":
             t = st[1]
-            if t < len(sim.callers) and sim.callers[t]["sent_id"] is not None:
-                fake.inbox.append((build_ans(sim.callers[t]["sent_id"], t, st[2], st[3]), t)); fake._kick()
+            if t < len(sim.callers) and sim.callers[t]["sent_id"] is not None and sim.callers[t].get("delivered", True):
+                c = sim.callers[t]
+                if "method" in c or "protocol" in c or len(st) > 4:
+                    # the peer echoes what the request frame carried (read independently of the library)
+                    proto, meth = c.get("sent_protocol", 10), c.get("sent_method", 1)
+                    how = st[4] if len(st) > 4 else "std"
+                    word = meth | 0x8000 if how == "std" else meth if how == "same" else 0x8001
+                    if st[2] == "ok": data = raw_response(proto, c["sent_id"], word, ans_body(t, st[3]))
+                    elif st[2] == "err": data = raw_error(proto, c["sent_id"], 0x80000000 | ans_code(t, st[3]))
+                    else: data = raw_error(proto, c["sent_id"], ans_code(t, st[3]) + 0x10000)
+                else:
+                    data = build_ans(c["sent_id"], t, st[2], st[3])
+                fake.inbox.append((data, t)); fake._kick()
             else:
                 sim.skipped_ans += 1
         elif k == "raw":
@@ -406,7 +545,7 @@ async def run_scenario(sc):
         conn.start(tg)
         for st in sc["steps"]:
             await conn.step(tg, st)
-        for _ in range(FINAL_YIELDS + conn.settle_yields()):
+        for _ in range(FINAL_YIELDS + conn.settle_yields() + sc.get("final_yields", 0)):
             await anyio.sleep(0)
         conn.snapshot()
         tg.cancel_scope.cancel()
@@ -422,6 +561,9 @@ async def run_multi_scenario(msc):
     Returns the list of Sims; sims[0].glog is the schedule."""
     glog = []
     conns = [Conn(sc, i, glog, own_settings=True) for i, sc in enumerate(msc["multi"])]
+    if msc.get("pair"):
+        # the two connections are the two ends of ONE connection: what one end sends the other receives
+        conns[0].fake.peer, conns[1].fake.peer = conns[1].fake, conns[0].fake
     async with anyio.create_task_group() as tg:
         for c in conns:
             c.start(tg)
@@ -435,7 +577,7 @@ async def run_multi_scenario(msc):
                 st = c.sc["steps"][nxt[ci]]
                 nxt[ci] += 1
                 await c.step(tg, st)
-        for _ in range(FINAL_YIELDS + sum(c.settle_yields() for c in conns)):
+        for _ in range(FINAL_YIELDS + sum(c.settle_yields() + c.sc.get("final_yields", 0) for c in conns)):
             await anyio.sleep(0)
         for c in conns:
             c.snapshot()
